@@ -260,6 +260,76 @@ func c11Enumerate(tier string, f func(i int64, mk func() c11Case) bool) {
 			}
 		}
 	}
+	// command-line options that take a value: every option x a small domain of values (empty, negative, oversized, a
+	// clashing name) x every format it can matter for, on the real binary
+	for _, fl := range c11FlagCases() {
+		fl := fl
+		if !emit(func() c11Case { return fl }) {
+			return
+		}
+	}
+}
+
+var c11FlagInputs = map[string]string{
+	"yaml":  "a: {b: 1, c: [x, {d: ~}]}\n+@id: v\n+content: t\n",
+	"xml":   "<?xml version=\"1.0\"?><!DOCTYPE r><r id=\"1\">t<c k=\"v\">u</c><?pi x?></r>\n",
+	"csv":   "a,b\n1,\"x;y\"\n",
+	"props": "a.b = 1\nc = 2\n",
+	"lua":   "return {a = {1, 2}}\n",
+	"seq":   "- {a: 1, b: x}\n- {a: 2, b: y}\n",
+	"front": "---\na: 1\n---\nbody\n",
+}
+
+func c11FlagCases() []c11Case {
+	var out []c11Case
+	add := func(input string, flags ...string) {
+		out = append(out, c11Case{Kind: "flags", Format: input, Text: strings.Join(flags, "\x00")})
+	}
+	for _, ind := range []string{"-1", "-64", "0", "1", "64"} {
+		for _, of := range []string{"yaml", "json", "props", "csv", "tsv", "xml", "base64", "uri", "toml", "shell", "lua"} {
+			add("yaml", "-I", ind, "-o="+of, ".")
+			add("seq", "-I", ind, "-o="+of, ".")
+			add("yaml", "-I", ind, "-o="+of, ".a.b")
+		}
+		add("yaml", "-I", ind, `.a | to_json`)
+		add("yaml", "-I", ind, `.a | to_yaml | from_yaml`)
+		add("yaml", "-I", ind, `.a | to_xml`)
+	}
+	for _, opt := range []string{"--xml-attribute-prefix", "--xml-content-name", "--xml-proc-inst-prefix", "--xml-directive-name"} {
+		for _, v := range []string{"", "+", "+content", "+@", "a", " ", "\n", "é"} {
+			add("yaml", opt+"="+v, "-o=xml", ".")
+			add("xml", opt+"="+v, "-p=xml", "-o=xml", ".")
+			add("xml", opt+"="+v, "-p=xml", "-o=yaml", ".")
+		}
+	}
+	for _, v := range []string{"", "ab", "\n", "\"", "é", ",", ";"} {
+		add("seq", "--csv-separator="+v, "-o=csv", ".")
+		add("csv", "--csv-separator="+v, "-p=csv", "-o=yaml", ".")
+		add("csv", "--csv-separator="+v, "-p=csv", "-o=csv", ".")
+	}
+	for _, v := range []string{"", "\n", "=", "é", "  "} {
+		add("yaml", "--properties-separator="+v, "-o=props", ".")
+		add("props", "--properties-separator="+v, "-p=props", "-o=props", ".")
+		add("yaml", "--lua-prefix="+v, "--lua-suffix="+v, "-o=lua", ".")
+		add("lua", "--lua-prefix="+v, "-p=lua", "-o=lua", ".")
+	}
+	for _, v := range []string{"", "extract", "process", "bogus"} {
+		add("front", "--front-matter="+v, ".")
+		add("yaml", "--front-matter="+v, ".")
+	}
+	for _, v := range []string{"", "bogus", "a", "auto"} {
+		add("yaml", "-o="+v, ".")
+		add("yaml", "-p="+v, ".")
+	}
+	for _, v := range []string{"", ".a", ".missing", "1", `"x/" + $index`, "("} {
+		add("yaml", "-s", v, ".")
+		add("yaml", "--expression", v)
+	}
+	for _, v := range []string{"", "missing-file", "."} {
+		add("yaml", "--from-file="+v)
+		add("yaml", "--split-exp-file="+v, ".")
+	}
+	return out
 }
 
 // c11Cat is set by c11Exec to the outcome category of the last case (vacuity signal in the evidence)
@@ -332,6 +402,22 @@ func c11Exec(cs c11Case) (sig string, detail string) {
 					panic(ppan)
 				}
 			}
+		}
+	case "flags":
+		dir, err := os.MkdirTemp("", "mc-c11-flags-")
+		if err != nil {
+			return "harness", err.Error()
+		}
+		defer os.RemoveAll(dir)
+		os.WriteFile(filepath.Join(dir, "in.txt"), []byte(c11FlagInputs[cs.Format]), 0o644)
+		args := append(strings.Split(cs.Text, "\x00"), "in.txt")
+		_, serr, exit, rerr := c10RunYq(dir, args...)
+		c11Cat = fmt.Sprintf("flags:exit=%d", exit)
+		if rerr != nil {
+			return "hang/flags/" + strings.SplitN(args[0], "=", 2)[0], rerr.Error()
+		}
+		if strings.Contains(serr, "panic:") || strings.Contains(serr, "goroutine 1 [") || strings.Contains(serr, "fatal error:") {
+			return "panic/" + c11TopFrame(serr), fmt.Sprintf("yq %q: exit %d\n%s", args, exit, clip(serr, 1500))
 		}
 	case "encode":
 		docs, derr, _ := impl.DecodeYAML(cs.Doc)
@@ -512,7 +598,7 @@ func c11Run(c *fw.Ctx) error {
 	from := int64(0)
 	var total int64
 	c11Enumerate(c.Tier, func(i int64, _ func() c11Case) bool { total = i; return true })
-	c.Res.Bound = fmt.Sprintf("%d cases: expression token sequences of length <= 2 over %d spellings (one per lexer rule plus hazards) and length 3 (thorough: all; quick: one third), all 3-character strings over 31 bytes as expressions, evaluated on %d documents; per input format every string of length <= L over its structural characters plus every truncation and every 1-edit (thorough: 2-edit) corruption of the seeds; every output format x U(n) and special documents", total, len(c11TokenList()), len(c11Docs))
+	c.Res.Bound = fmt.Sprintf("%d cases: expression token sequences of length <= 2 over %d spellings (one per lexer rule plus hazards) and length 3 (thorough: all; quick: one third), all 3-character strings over 31 bytes as expressions, evaluated on %d documents; per input format every string of length <= L over its structural characters plus every truncation and every 1-edit (thorough: 2-edit) corruption of the seeds; every output format x U(n) and special documents; every value-taking command-line option x a small value domain on the binary", total, len(c11TokenList()), len(c11Docs))
 	restarts := 0
 	for {
 		os.Remove(progress + ".done")
